@@ -254,6 +254,29 @@ def run(ctx):
         # ---- C19.6: the generated python command -------------------------------------------------------------------
         from ..sim import concat_parts, deep_ast
         parts = concat_parts(deep_ast(v.left.elts[2]))
+
+        def simp(x_):
+            # str(s) of something that is a string already, and [f(w) for w in L][k] = f(L[k])
+            while isinstance(x_, ast.Call) and isinstance(x_.func, ast.Name) and x_.func.id == 'str' and len(x_.args) == 1 and not x_.keywords \
+                    and isinstance(x_.args[0], (ast.Call, ast.Subscript)):
+                inner_ = simp(x_.args[0])
+                if isinstance(inner_, ast.Call) and norm(inner_.func) in ('repr', 'json.dumps', 'str'):
+                    x_ = inner_
+                else:
+                    break
+            if isinstance(x_, ast.Subscript) and isinstance(x_.slice, ast.Constant) and isinstance(x_.slice.value, int) and isinstance(x_.value, (ast.ListComp, ast.GeneratorExp)) \
+                    and len(x_.value.generators) == 1 and not x_.value.generators[0].ifs and isinstance(x_.value.generators[0].target, ast.Name) and x_.slice.value >= 0:
+                g_ = x_.value.generators[0]
+                tgt_ = g_.target.id
+                elem_ = ast.Subscript(value=g_.iter, slice=x_.slice, ctx=ast.Load())
+
+                class _Sub(ast.NodeTransformer):
+                    def visit_Name(self, n_):
+                        return elem_ if n_.id == tgt_ else n_
+                import copy as _copy
+                x_ = _Sub().visit(_copy.deepcopy(x_.value.elt))
+            return x_
+        parts = [x_ if isinstance(x_, ast.Constant) else simp(x_) for x_ in parts]
         njoin = 0
         whole = False
         for x in parts:
